@@ -3,8 +3,10 @@ package rules
 import (
 	"fmt"
 	"go/ast"
+	"go/constant"
 	"go/token"
 	"go/types"
+	"path/filepath"
 	"regexp"
 	"sort"
 	"strings"
@@ -139,6 +141,9 @@ func init() {
 	mutant(&Mutant{Name: "c19-sync-copy-error-ignored", Property: "C19", File: "cmd/minify/main.go",
 		Old: "\t\tfr.Close()\n\t\tfw.Close()\n\t\tif err != nil {\n\t\t\tError.Println(err)\n\t\t\treturn false\n\t\t}\n\t\tpreserveAttributes", New: "\t\tfr.Close()\n\t\tfw.Close()\n\t\tif err != nil {\n\t\t\tError.Println(err)\n\t\t}\n\t\tpreserveAttributes",
 		Rule: "R19.6", Construct: "io.Copy(fw, fr)"})
+	mutant(&Mutant{Name: "c19-escape-test-refuses-dotdot-names", Property: "C19", File: "cmd/minify/main.go",
+		Old: "} else if rel == \"..\" || strings.HasPrefix(rel, \"..\"+string(os.PathSeparator)) {", New: "} else if strings.HasPrefix(rel, \"..\") {",
+		Rule: "R19.23", Construct: "escape test on the relative path \"..a\""})
 	mutant(&Mutant{Name: "c19-stop-at-first-failure", Property: "C19", File: "cmd/minify/main.go",
 		Old: "\t\tfor _, task := range tasks {\n\t\t\tif ok := minify(task); !ok {\n\t\t\t\tfails++\n\t\t\t}\n\t\t}\n\t} else {", New: "\t\tfor _, task := range tasks {\n\t\t\tif ok := minify(task); !ok {\n\t\t\t\tfails++\n\t\t\t\tbreak\n\t\t\t}\n\t\t}\n\t} else {",
 		Rule: "R19.2", Construct: "run/task loop"})
@@ -1210,6 +1215,7 @@ func runC19(c *Ctx) {
 	c.r1920(x)
 	c.r1921(x)
 	c.r1922(x)
+	c.r1923(x)
 	// a bundle written onto one of its inputs: the input is truncated by the open before the lazy reader gets to it,
 	// so the output silently lacks that file — the ordering rule of C20 is a condition of "the library's output" too
 	c.alsoUnder(map[string]string{"R20.1": "R19.13"}, nil, func() { c.r201(x) })
@@ -2715,5 +2721,259 @@ func (c *Ctx) r1922(x *cliCtx) {
 	for _, s := range sites {
 		seen[s.fn]++
 		c.R.Check(s.set == ref, rule, fmt.Sprintf("main.%s/extension key derived as in minify()#%d", s.fn, seen[s.fn]), c.pos(s.pos), "key derived by "+s.set, "the extension is derived by {"+s.set+"} here but by {"+ref+"} where the media type is inferred: the two look-ups disagree for some file names (`LOGO.SVG`), so a file is selected but cannot be typed — it is neither minified nor copied and the run fails — or is typed but never selected")
+	}
+}
+
+// R19.23: the escape test of NewTask rejects exactly the relative paths that leave the root.
+func (c *Ctx) r1923(x *cliCtx) {
+	const rule = "R19.23"
+	c.R.Rule(rule, "the tests that R19.17 requires between filepath.Rel and the join onto the output directory are evaluated, in the checker, for sample relative paths (filepath.Rel returns a cleaned path, so these are all the shapes): with every test of the relative path fixed to its value for the sample, the join is reachable for `a`, `a/b`, `.`, `..a`, `...`, `..a/b` and `.a` — names that merely begin with dots lie inside the root — and unreachable for `..` and `../a`. `strings.HasPrefix(rel, \"..\")` refuses `minify -o out/ ..notes.css` (and, in a recursive run, every file whose name starts with two dots is skipped with an error)")
+	pk, info := x.pk, x.info
+	fd := c.fn(rule, pk, "NewTask")
+	if fd == nil {
+		return
+	}
+	g := c.graph(pk, fd)
+	var relN, joinN *flow.Node
+	var relObj types.Object
+	for _, y := range g.Nodes {
+		a := y.Ast()
+		if a == nil || y.Kind != flow.KStmt {
+			continue
+		}
+		if calls := findCalls(info, a, false, "path/filepath.Rel"); len(calls) > 0 {
+			if as, ok := y.Stmt.(*ast.AssignStmt); ok && len(as.Lhs) >= 1 {
+				if id, ok := as.Lhs[0].(*ast.Ident); ok {
+					relN = y
+					relObj = info.Defs[id]
+					if relObj == nil {
+						relObj = info.Uses[id]
+					}
+				}
+			}
+		}
+		for _, call := range findCalls(info, a, false, "path/filepath.Join") {
+			if len(call.Args) == 2 && relObj != nil {
+				if id, ok := call.Args[1].(*ast.Ident); ok && info.Uses[id] == relObj {
+					joinN = y
+				}
+			}
+		}
+	}
+	if relN == nil || joinN == nil || relObj == nil {
+		c.R.Unres(rule, "main.NewTask/mirror path", c.pos(fd), "filepath.Rel / filepath.Join pair not found (see R19.16)")
+		return
+	}
+	mentions := func(e ast.Expr) bool {
+		hit := false
+		ast.Inspect(e, func(z ast.Node) bool {
+			if id, ok := z.(*ast.Ident); ok && info.Uses[id] == relObj {
+				hit = true
+			}
+			return true
+		})
+		return hit
+	}
+	// a tiny evaluator for string predicates over the relative path
+	hostSep := true
+	var evalE func(e ast.Expr, rel string) (interface{}, bool)
+	evalE = func(e ast.Expr, rel string) (interface{}, bool) {
+		e = ast.Unparen(e)
+		if tv, ok := info.Types[e]; ok && tv.Value != nil {
+			switch tv.Value.Kind() {
+			case constant.String:
+				return constant.StringVal(tv.Value), true
+			case constant.Bool:
+				return constant.BoolVal(tv.Value), true
+			case constant.Int:
+				if v, ok := constant.Int64Val(tv.Value); ok {
+					return v, true
+				}
+			}
+		}
+		switch v := e.(type) {
+		case *ast.Ident:
+			if info.Uses[v] == relObj {
+				return rel, true
+			}
+		case *ast.UnaryExpr:
+			if v.Op == token.NOT {
+				if b, ok := evalE(v.X, rel); ok {
+					if bb, isB := b.(bool); isB {
+						return !bb, true
+					}
+				}
+			}
+		case *ast.BinaryExpr:
+			l, ok1 := evalE(v.X, rel)
+			r, ok2 := evalE(v.Y, rel)
+			if !ok1 || !ok2 {
+				return nil, false
+			}
+			ls, lIsS := l.(string)
+			rs, rIsS := r.(string)
+			li, lIsI := l.(int64)
+			ri, rIsI := r.(int64)
+			switch {
+			case lIsS && rIsS:
+				switch v.Op {
+				case token.ADD:
+					return ls + rs, true
+				case token.EQL:
+					return ls == rs, true
+				case token.NEQ:
+					return ls != rs, true
+				}
+			case lIsI && rIsI:
+				switch v.Op {
+				case token.EQL:
+					return li == ri, true
+				case token.NEQ:
+					return li != ri, true
+				case token.LSS:
+					return li < ri, true
+				case token.LEQ:
+					return li <= ri, true
+				case token.GTR:
+					return li > ri, true
+				case token.GEQ:
+					return li >= ri, true
+				case token.ADD:
+					return li + ri, true
+				case token.SUB:
+					return li - ri, true
+				}
+			}
+		case *ast.IndexExpr:
+			s, ok1 := evalE(v.X, rel)
+			i, ok2 := evalE(v.Index, rel)
+			if ss, isS := s.(string); ok1 && ok2 && isS {
+				if ii, isI := i.(int64); isI && 0 <= ii && int(ii) < len(ss) {
+					return int64(ss[ii]), true
+				}
+			}
+		case *ast.SliceExpr:
+			s, ok1 := evalE(v.X, rel)
+			ss, isS := s.(string)
+			if !ok1 || !isS || v.Slice3 {
+				return nil, false
+			}
+			lo, hi := int64(0), int64(len(ss))
+			if v.Low != nil {
+				a, ok := evalE(v.Low, rel)
+				ai, isI := a.(int64)
+				if !ok || !isI {
+					return nil, false
+				}
+				lo = ai
+			}
+			if v.High != nil {
+				a, ok := evalE(v.High, rel)
+				ai, isI := a.(int64)
+				if !ok || !isI {
+					return nil, false
+				}
+				hi = ai
+			}
+			if 0 <= lo && lo <= hi && int(hi) <= len(ss) {
+				return ss[lo:hi], true
+			}
+		case *ast.CallExpr:
+			if tv, ok := info.Types[v.Fun]; ok && tv.IsType() && len(v.Args) == 1 {
+				// string(os.PathSeparator)
+				if atv, ok := info.Types[v.Args[0]]; ok && atv.Value != nil && atv.Value.Kind() == constant.Int {
+					if r, ok := constant.Int64Val(atv.Value); ok && types.Identical(tv.Type.Underlying(), types.Typ[types.String]) {
+						return string(rune(r)), true
+					}
+				}
+				return evalE(v.Args[0], rel)
+			}
+			if id, ok := v.Fun.(*ast.Ident); ok && info.Uses[id] == types.Universe.Lookup("len") && len(v.Args) == 1 {
+				if s, ok := evalE(v.Args[0], rel); ok {
+					if ss, isS := s.(string); isS {
+						return int64(len(ss)), true
+					}
+				}
+				return nil, false
+			}
+			name := calleeName(info, v)
+			var args []string
+			for _, a := range v.Args {
+				s, ok := evalE(a, rel)
+				ss, isS := s.(string)
+				if !ok || !isS {
+					return nil, false
+				}
+				args = append(args, ss)
+			}
+			switch {
+			case name == "strings.HasPrefix" && len(args) == 2:
+				return strings.HasPrefix(args[0], args[1]), true
+			case name == "strings.HasSuffix" && len(args) == 2:
+				return strings.HasSuffix(args[0], args[1]), true
+			case name == "strings.Contains" && len(args) == 2:
+				return strings.Contains(args[0], args[1]), true
+			case name == "path/filepath.IsLocal" && len(args) == 1 && hostSep:
+				return filepath.IsLocal(args[0]), true
+			case name == "path/filepath.IsAbs" && len(args) == 1 && hostSep:
+				return filepath.IsAbs(args[0]), true
+			}
+		}
+		return nil, false
+	}
+	var atoms []*flow.Node
+	for _, q := range g.Nodes {
+		if q.Kind == flow.KCond && mentions(q.Expr) && g.Reachable(q) {
+			atoms = append(atoms, q)
+		}
+	}
+	c.R.Floor(rule, "tests of the relative path in NewTask", len(atoms), 1)
+	// the separator of the platform the program is loaded for (the thorough tier also loads GOOS=windows)
+	sep := "/"
+	for _, imp := range pk.Types.Imports() {
+		if imp.Path() == "os" {
+			if k, ok := imp.Scope().Lookup("PathSeparator").(*types.Const); ok {
+				if r, ok := constant.Int64Val(k.Val()); ok {
+					sep = string(rune(r))
+				}
+			}
+		}
+	}
+	hostSep = sep == string(filepath.Separator)
+	samples := []struct {
+		rel    string
+		inside bool
+	}{{"a", true}, {"a/b", true}, {".", true}, {".a", true}, {"..a", true}, {"...", true}, {"..a/b", true}, {"..", false}, {"../a", false}, {"../..", false}}
+	for _, s := range samples {
+		s.rel = strings.ReplaceAll(s.rel, "/", sep)
+		construct := fmt.Sprintf("main.NewTask/escape test on the relative path %q", s.rel)
+		vals := map[*flow.Node]bool{}
+		undecided := ""
+		for _, q := range atoms {
+			v, ok := evalE(q.Expr, s.rel)
+			b, isB := v.(bool)
+			if !ok || !isB {
+				undecided = str(q.Expr)
+				break
+			}
+			vals[q] = b
+		}
+		if undecided != "" {
+			c.R.Unres(rule, construct, c.pos(joinN.Ast()), "the test `"+undecided+"` is outside what the checker evaluates (string comparisons, concatenation, strings.HasPrefix/HasSuffix/Contains, filepath.IsLocal)")
+			continue
+		}
+		p := g.Path(flow.Search{From: []*flow.Node{relN}, Goal: func(q *flow.Node) bool { return q == joinN }, Avoid: func(q *flow.Node) bool {
+			if (q.Kind == flow.KTrue || q.Kind == flow.KFalse) && q.Of != nil {
+				if v, ok := vals[q.Of]; ok {
+					return v != (q.Kind == flow.KTrue)
+				}
+			}
+			return false
+		}})
+		if s.inside {
+			c.R.Check(p != nil, rule, construct, c.pos(joinN.Ast()), "accepted: the join is reached", "a file whose path relative to the root is "+s.rel+" lies inside the root, but no path reaches the join onto the output directory with the tests evaluated for it: the file is refused (or skipped with an error in a recursive run)")
+		} else {
+			c.R.Check(p == nil, rule, construct, c.pos(joinN.Ast()), "refused: the join is not reached", "the relative path "+s.rel+" leaves the root and is still joined onto the output directory: "+pathStr(c, g, p))
+		}
 	}
 }
